@@ -407,3 +407,10 @@ func ClockReading(k int) time.Time {
 
 // ClockReadings is the number of clock readings taken so far (0 natively).
 func ClockReadings() int { return 0 }
+
+// SQL row-store observation points (symbolic mode only; natively they report "nothing known").
+func SQLFaults(on bool)                             {}
+func SQLRowCount(table, column, text string) int    { return -1 }
+func SQLWritesOutsideTx() int                       { return 0 }
+func SQLOpenTx() int                                { return 0 }
+func SQLConnTaken() bool                            { return false }
